@@ -21,8 +21,11 @@ import (
 // responses, chunking, delays and failures come from the tape.
 
 func init() {
-	scenarios["exchange-C06"] = func(t *testing.T, cfg *simrt.Config) simrt.RunFn {
-		return func(tape *simrt.Tape, keep bool) simrt.Outcome { return runExchange(t, tape, keep) }
+	for _, p := range []string{"C06", "C05"} {
+		p := p
+		scenarios["exchange-"+p] = func(t *testing.T, cfg *simrt.Config) simrt.RunFn {
+			return func(tape *simrt.Tape, keep bool) simrt.Outcome { return runExchange(t, p, tape, keep) }
+		}
 	}
 }
 
@@ -62,7 +65,8 @@ type xBody struct {
 	h              *hop
 	off            int
 	ci             int
-	sawEnd         bool // a Read returned io.EOF or an error
+	sawEnd         bool      // a Read returned io.EOF or an error
+	endAt          time.Time // fake instant of that Read
 	closes         int
 	endBeforeClose bool
 }
@@ -84,6 +88,9 @@ func (b *xBody) Read(p []byte) (int, error) {
 		limit = b.h.bodyErr
 	}
 	if b.off >= limit {
+		if !b.sawEnd {
+			b.endAt = time.Now()
+		}
 		b.sawEnd = true
 		if b.h.bodyErr >= 0 {
 			return 0, errXBody
@@ -104,6 +111,9 @@ func (b *xBody) Read(p []byte) (int, error) {
 	copy(p, b.h.body[b.off:b.off+n])
 	b.off += n
 	if b.off >= limit && b.h.eofWith && b.h.bodyErr < 0 {
+		if !b.sawEnd {
+			b.endAt = time.Now()
+		}
 		b.sawEnd = true
 		return n, io.EOF
 	}
@@ -262,7 +272,7 @@ func genExchange(t *simrt.Tape, i int, redirects int) *exchange {
 	return x
 }
 
-func runExchange(tt *testing.T, tape *simrt.Tape, keep bool) simrt.Outcome {
+func runExchange(tt *testing.T, prop string, tape *simrt.Tape, keep bool) simrt.Outcome {
 	var (
 		log   simrt.EventLog
 		viol  *simrt.Violation
@@ -270,8 +280,11 @@ func runExchange(tt *testing.T, tape *simrt.Tape, keep bool) simrt.Outcome {
 	)
 	log.Keep = keep
 	fail := func(class, format string, args ...any) {
+		if !strings.HasPrefix(class, prop+".") {
+			return // a clause of the other property served by this scenario
+		}
 		if viol == nil {
-			viol = &simrt.Violation{Prop: "C06", Class: class, Msg: fmt.Sprintf(format, args...)}
+			viol = &simrt.Violation{Prop: prop, Class: class, Msg: fmt.Sprintf(format, args...)}
 			log.Addf("VIOLATION %s %s", class, viol.Msg)
 		}
 	}
@@ -544,6 +557,15 @@ func checkExchange(fail func(string, string, ...any), stats map[string]int, log 
 	}
 	if r.Latency < spent {
 		fail("C06.latency", "exchange %d: latency %v, the transport alone took %v", i, r.Latency, spent)
+		fail("C05.latency-short", "exchange %d: latency %v, the transport alone took %v", i, r.Latency, spent)
+	}
+	// the transport is done when the body has been delivered to its end: the result cannot end before that
+	if final < len(x.bodies) && x.bodies[final].sawEnd && r.Timestamp.Add(r.Latency).Before(x.bodies[final].endAt) {
+		fail("C05.latency-short-of-body", "exchange %d: the result ends %v before the last byte of the response body (%d bytes, max-body %d) was delivered", i,
+			x.bodies[final].endAt.Sub(r.Timestamp.Add(r.Latency)), len(h.body), maxBody)
+	}
+	if r.Latency < 0 {
+		fail("C05.latency-negative", "exchange %d: latency %v", i, r.Latency)
 	}
 	stats["probe.completed-exchange"]++
 }
